@@ -110,6 +110,8 @@ def _blame(exc):
     repository or the harness is in the repository, else 'harness'."""
     frames = traceback.extract_tb(exc.__traceback__)
     for fr in reversed(frames):
+        if not os.path.isabs(fr.filename):  # e.g. Cython frames ("scipy/spatial/_qhull.pyx")
+            continue
         fn = os.path.abspath(fr.filename)
         if fn.startswith(os.path.join(REPO, "verde") + os.sep):
             return "verde", "%s:%d in %s" % (os.path.relpath(fn, REPO), fr.lineno, fr.name)
